@@ -152,26 +152,26 @@ struct PRow {
     v: i64,
 }
 
-const HM: i128 = 2_147_483_647; // 2^31 - 1
-/// hash of a value / a row for the digests of big results (mirrored in Corr/C08.v)
+/// hash of a value / a row for the digests of big results (mirrored in Corr/C08.v; no division:
+/// the Coq side evaluates it on every row under vm_compute)
 fn val_hash(v: &Val) -> i128 {
     match v {
-        Val::I(z) => i128::from(*z).rem_euclid(HM),
-        Val::P(a, b) => (val_hash(a) * 31 + val_hash(b) * 17 + 1).rem_euclid(HM),
+        Val::I(z) => i128::from(*z),
+        Val::P(a, b) => val_hash(a) * 31 + val_hash(b) * 17 + 1,
         Val::N => 7,
-        Val::S(a) => (val_hash(a) * 13 + 3).rem_euclid(HM),
+        Val::S(a) => val_hash(a) * 13 + 3,
     }
 }
 fn row_hash(r: &Row) -> i128 {
-    (i128::from(r.0).rem_euclid(HM) * 1_000_003 + val_hash(&r.1)).rem_euclid(HM)
+    (i128::from(r.0) * 1_000_003 + val_hash(&r.1)) & 0xF_FFFF
 }
-/// ["okd", n, sum of h, sum of (i+1) h]  (all mod 2^31 - 1)
+/// ["okd", n, sum of h, sum of (i+1) h]
 fn rows_digest(rows: &[Row]) -> Value {
     let (mut s1, mut s2) = (0i128, 0i128);
     for (i, r) in rows.iter().enumerate() {
         let h = row_hash(r);
-        s1 = (s1 + h).rem_euclid(HM);
-        s2 = (s2 + (i as i128 + 1) * h).rem_euclid(HM);
+        s1 += h;
+        s2 += (i as i128 + 1) * h;
     }
     json!(["okd", rows.len(), s1 as i64, s2 as i64])
 }
@@ -2028,7 +2028,8 @@ fn scenario_share(rng: &mut SplitMix64, em: &mut Emitter, fmt: u8, n: usize, two
         return;
     }
     let nfiles = 2 + rng.below(2) as usize;
-    let blank = if fmt == 0 && n >= 3 && rng.chance(1, 2) { 2 + rng.below(3) as usize } else { 0 };
+    let blank =
+        if fmt == 0 && (3..=4096).contains(&n) && rng.chance(1, 2) { 2 + rng.below(3) as usize } else { 0 };
     let p = match fmt {
         0 => 0,
         1 => rng.below(2) as usize,
@@ -2038,7 +2039,8 @@ fn scenario_share(rng: &mut SplitMix64, em: &mut Emitter, fmt: u8, n: usize, two
         .map(|i| FileSpec {
             fmt,
             p: if fmt == 2 && n > 128 { p.max(n.div_ceil(64)) } else { p },
-            lines: LinesSpec::Gen(n, 100 * (i as i64 + 1), 3, blank),
+            // big files: no per-line division on the Coq side
+            lines: LinesSpec::Gen(n, 100 * (i as i64 + 1), if n > 4096 { 1 } else { 3 }, blank),
         })
         .collect();
     let shards = shard_choices(n);
@@ -2188,13 +2190,27 @@ fn scenario_custom(rng: &mut SplitMix64, em: &mut Emitter, lm: u8, sp: u8, n: us
 /// "sizes": a generated from_vec source of n rows, a map -> filter -> key_by chain, collected
 /// through every mode (digest for big n)
 fn scenario_sizes(rng: &mut SplitMix64, em: &mut Emitter, n: usize, digest: bool) {
+    let modes = [0usize, 1, 2, 3, 4, 8, 16, 64, 256, 999, 1000, 1001, 1005, 1006];
+    if n > 4096 {
+        // very big: a division-free chain (the Coq side evaluates it row by row), four collects
+        let mut prog = vec![
+            Call::Src(RowsSpec::Gen(n, 10, 1)),
+            Call::Derive(Op::Map, 1, 0, (0, 0)),
+            Call::Derive(Op::MapValues, 0, 0, (0, 1)),
+        ];
+        prog.push(Call::Collect(*rng.pick(&modes[1..]), (0, 2), true));
+        prog.push(Call::Collect(0, (0, 0), true));
+        prog.push(Call::Collect(*rng.pick(&modes[1..]), (0, 0), true));
+        prog.push(Call::Collect(0, (0, 2), true));
+        emit_hist_env(em, &[prog], &[], &Env::plain(1), &["sizes"]);
+        return;
+    }
     let mut prog = vec![
         Call::Src(RowsSpec::Gen(n, 10, 5)),
         Call::Derive(Op::Map, 1, 0, (0, 0)),
         Call::Derive(Op::Filter, 3, rng.range(0, 2), (0, 1)),
         Call::Derive(Op::KeyBy, 3, 0, (0, 2)),
     ];
-    let modes = [0usize, 1, 2, 3, 4, 8, 16, 64, 256, 999, 1000, 1001, 1005, 1006];
     for k in 0..4usize {
         prog.push(Call::Collect(if k % 2 == 0 { 0 } else { *rng.pick(&modes) }, (0, k), digest));
         prog.push(Call::Collect(*rng.pick(&modes), (0, 3 - k), digest));
@@ -2245,8 +2261,9 @@ fn generate(seed: u64, tier: Tier, em: &mut Emitter) {
                 for &n in &SMALL_SIZES {
                     scenario_custom(&mut srng, em, lm, sp, n, false);
                 }
+                // pages are listed explicitly: up to 4096 rows
                 for &n in &BIG_SIZES {
-                    if n <= 1024 || (lm == 0 && sp == 1) || thorough {
+                    if n <= 1024 || (n <= 4096 && ((lm == 0 && sp >= 1) || thorough)) {
                         scenario_custom(&mut srng, em, lm, sp, n, true);
                     }
                 }
@@ -2255,7 +2272,7 @@ fn generate(seed: u64, tier: Tier, em: &mut Emitter) {
         for &n in SMALL_SIZES.iter().chain(&[256usize, 512, 1024]) {
             scenario_sizes(&mut srng, em, n, n > 128);
         }
-        for &n in &[4096usize, 65536, 131_072] {
+        for &n in &[4096usize, 65536] {
             scenario_sizes(&mut srng, em, n, true);
         }
     }
